@@ -1,4 +1,4 @@
-import AfkakProofs.Consumer.InvP
+import AfkakProofs.Consumer.Inv3
 /-!
 # `G` is preserved by `stop()`, `shutdown()`, every level of the re-entrant API, and every event
 -/
@@ -12,49 +12,46 @@ theorem stopReq_pres (cfg : Cfg) : Pres cfg (stopReq cfg) := by
   split
   · simp only []
     rename_i k kind c hreq
+    have hpk : s.parked = none := by
+      cases hpp : s.parked with
+      | none => rfl
+      | some r =>
+        obtain ⟨k', hk'⟩ := hs.sf.parkedReq (by rw [hpp]; rfl)
+        rw [hreq] at hk'; cases hk'
+    have hact : (runR C02.sfStep {} s.out).req = (if c then none else some k) := by
+      rw [hs.sf.sfReq, hreq]; cases c <;> rfl
     have h1 : Good cfg s { emit (.cancelReq k) s with requestD := .pending k kind true } := by leaf hx
     split
     · split
-      · exact (handleFetchError_pres cfg _).step h1
-      · exact (handleOffsetError_pres cfg _).step h1
+      · exact handleFetchError_good cfg _ h1 rfl hpk
+      · exact handleOffsetError_good cfg _ h1 rfl hpk
     · exact h1
   · exact hx
 
-/-- `stop()`'s last statements, once no generator is suspended any more -/
-theorem stopFinish_good {cfg : Cfg} {s0 s : St} (h : Good cfg s0 s) (hp : s.proc = none) : Good cfg s0 (stopFinish s) := by
-  unfold stopFinish
-  simp only []
-  split
-  · leaf h
-  · leaf h
-  · exact (crash_pres cfg _).step (by leaf h)
-
 section
-variable {cfg : Cfg} {inner : Ops} (hin : OpsPres cfg inner)
-include hin
+variable {cfg : Cfg} {inner : Ops} (hin : OpsPres cfg inner) (hc : OpsPN Calm inner) (hqt : OpsPN Quiet inner)
+  (hpn : OpsPN ProcNone inner)
+include hin hc
 
 theorem stopBlockProc_good {s0 s : St} (h : Good cfg s0 s) (hst : s.stopping = true) :
     Good cfg s0 (stopBlockProc cfg inner s) := by
   unfold stopBlockProc
-  simp only []
   cases hp : s.proc with
   | none =>
     -- no generator is suspended: only the block flag (and a parked reply) go
+    simp only [stopBlock_proc, hp]
+    unfold stopBlock
     split
-    · rename_i g hg
-      split at hg <;> simp [hp] at hg
-    · split
-      · leaf h
-      · exact h
+    · leaf h
+    · exact h
   | some g =>
-    have hb : s.msgBlock = true := h.1.g1.procBlock (by rw [hp]; rfl)
     have hf : s.frame = none := by
       cases hff : s.frame with
       | none => rfl
       | some fr => exact absurd (h.1.g1.frameProc (by rw [hff]; rfl)) (by rw [hp]; simp)
-    simp only [hb, if_true, hp]
+    simp only [stopBlock_proc, hp]
     obtain ⟨g1, p1, st1⟩ := procFired_stop_good hin g (.ext .cancelled 0) h.1 hp hst
-    have h2 := fun p => procResume_good hin g p g1 p1 (by rw [g1.2]; exact hf) (Or.inr st1)
+    have h2 := fun p => procResume_good hin hc g p g1 p1 (by rw [g1.2]; exact hf) (Or.inr st1)
     refine Good.trans h ?_
     unfold procResult
     simp only []
@@ -62,30 +59,41 @@ theorem stopBlockProc_good {s0 s : St} (h : Good cfg s0 s) (hst : s.stopping = t
     · exact (commitAndStop_pres hin).step (h2 _)
     · exact h2 _
 
+omit hc in
 theorem stopCommitReq_pres : Pres cfg (stopCommitReq cfg inner) := by
   intro s hs
   have hx := Good.refl hs
   unfold stopCommitReq
   split
-  · simp only []
+  · rename_i r hr
+    have hne := sf_ne_commit hs r hr
+    simp only []
     split
     · exact (handleCommitError_pres hin _ _ _).step (by leaf hx)
     · leaf hx
   · exact hx
 
+include hqt hpn in
 theorem stopCore_pres : Pres cfg (stopCore cfg inner) := by
   intro s hs
   have h0 : Good cfg s { s with stopping := true } := by
     have hx := Good.refl hs
     leaf hx
   have h1 := (stopReq_pres cfg).step h0
-  have st1 : (stopReq cfg { s with stopping := true }).stopping = true := (stopReq_keeps cfg _).2.1
-  have h2 := stopBlockProc_good hin h1 st1
+  have k0 := stopReq_keeps0 cfg { s with stopping := true }
+  have st1 : (stopReq cfg { s with stopping := true }).stopping = true := k0.2.1
+  have h2 := stopBlockProc_good hin hc h1 st1
   have h3 := (stopRetry_pres cfg).step h2
+  -- after the block/processor and retry phases nothing is suspended and no refetch is scheduled
+  have p2 : (stopBlockProc cfg inner (stopReq cfg { s with stopping := true })).proc = none :=
+    stopBlockProc_stopping_procNone hpn _ st1
+  have q3 := stopRetry_quiet _ p2
+  have q4 := stopTail_pn quiet_ok hqt (cfg := cfg) q3
   unfold stopCore
   simp only []
-  exact (stopFinish_pres cfg).step ((stopTimers_pres cfg).step ((stopCommitReq_pres hin).step ((cancelWaiters_pres hin _).step h3)))
+  exact stopFinish_good ((stopTimers_pres cfg).step ((stopCommitReq_pres hin).step ((cancelWaiters_pres hin _).step h3))) q4.2
 
+include hqt hpn in
 theorem stop_pres : Pres cfg (stop cfg inner) := by
   intro s hs
   unfold stop
@@ -93,9 +101,10 @@ theorem stop_pres : Pres cfg (stop cfg inner) := by
   · have hx := Good.refl hs
     leaf hx
   · simp only []
-    have h1 := stopCore_pres hin s hs
+    have h1 := stopCore_pres hin hc hqt hpn s hs
     leaf h1
 
+omit hc in
 theorem shutdown_pres : Pres cfg (shutdown cfg inner) := by
   intro s hs
   have hx := Good.refl hs
@@ -110,23 +119,27 @@ theorem shutdown_pres : Pres cfg (shutdown cfg inner) := by
         leaf hx
       · exact (commitAndStop_pres hin).step (by leaf hx)
 
+include hqt hpn in
 theorem mkOps_pres : OpsPres cfg (mkOps cfg inner) :=
-  ⟨stop_pres hin, stopCore_pres hin, commitUser_pres cfg, shutdown_pres hin⟩
+  ⟨stop_pres hin hc hqt hpn, stopCore_pres hin hc hqt hpn, commitUser_pres cfg, shutdown_pres hin⟩
 
 end
 
 theorem opsN_pres (cfg : Cfg) : ∀ n, OpsPres cfg (opsN cfg n)
   | 0 => ⟨crash_pres cfg _, crash_pres cfg _, crash_pres cfg _, crash_pres cfg _⟩
-  | n + 1 => mkOps_pres (opsN_pres cfg n)
+  | n + 1 => mkOps_pres (opsN_pres cfg n) (opsN_calm cfg n) (opsN_quiet cfg n) (opsN_procNone cfg n)
 
-/-- `start()` (an application call from outside the processor) -/
-theorem start_good (cfg : Cfg) (off : Int) {s : St} (hs : G cfg s) (hf : s.frame = none) : Good cfg s (start cfg off s) := by
+/-- `start()` (an application call from outside the processor), with its event -/
+theorem start_good (cfg : Cfg) (off : Int) {s : St} (hs : G cfg s) (hf : s.frame = none)
+    (hlc : (runR C03.ackStep {} s.out).lc = s.lastCommitted) :
+    Good cfg s (start cfg off { s with out := .ev (.start off) :: s.out }) := by
   have hx := Good.refl hs
   unfold start
   split
   · leaf hx
   · simp only []
-    have h1 := (doFetch_pres cfg).step (s := s) (x := { s with startD := .pending, fetchOffset := off }) (by leaf hx)
+    have h1 := doFetch_good cfg (s0 := s)
+      (s := { ({ s with out := .ev (.start off) :: s.out } : St) with startD := .pending, fetchOffset := off }) (by leaf hx) (by simp)
     split
     · leaf h1
     · exact h1
